@@ -127,6 +127,19 @@ impl V {
             ),
         }
     }
+    /// JSON text with a space after every `,` and `:` -- used when a value is spliced into PROGRAM
+    /// text: `,"é"` (comma immediately followed by a quote and a non-ASCII character) makes
+    /// jq::parse panic in Parser::peek_str (known finding of C19, not this family's business)
+    pub fn text_spaced(&self) -> String {
+        match self {
+            V::Arr(a) => format!("[{}]", a.iter().map(|x| x.text_spaced()).collect::<Vec<_>>().join(", ")),
+            V::Obj(kv) => format!(
+                "{{{}}}",
+                kv.iter().map(|(k, v)| format!("{}: {}", serde_json::to_string(k).unwrap(), v.text_spaced())).collect::<Vec<_>>().join(", ")
+            ),
+            other => other.text(),
+        }
+    }
     pub fn enc(&self) -> Value {
         match self {
             V::Null => json!({"t":"null"}),
